@@ -1046,6 +1046,8 @@ class Executor(object):
         elif f.mode == "separable":
             # separable Hamiltonian system: dq/dt = f_q(p), dp/dt = f_p(t, q)
             t_arg, y_arg = args[0], args[1]
+            if not isinstance(y_arg, BlockVec):
+                raise Unsupported("separable right-hand side applied to a state the executor does not model as (q, p) blocks: %r" % (_short(y_arg),))
             if f.attrs.get("autonomous"):
                 val = BlockVec([LinComb.app(f.name + ".q", y_arg.blocks[1]), LinComb.app(f.name + ".p", y_arg.blocks[0])])
             else:
